@@ -176,7 +176,16 @@ def run(P, R, tier):
                                             for s in walk_own(rp.node))
     R.check(ok3, 'C20.d', rp, None, 'read_parquet builds the frame with the requested geometry', 'read_parquet ignores geometry=', construct='return GeoDataFrame(df, geometry=geometry)')
     gparam = 'geometry'
-    uses = [c for c in astq.own_calls(prd) if isinstance(c.func, ast.Attribute) and c.func.attr == 'set_geometry' and c.args and norm(c.args[0]) == gparam]
+    def _alias_of_param(e):
+        """(is the caller's geometry= value, line where it was captured)"""
+        if isinstance(e, ast.Name) and e.id == gparam:
+            return True, None
+        if isinstance(e, ast.Name):
+            g_, d_ = astq.unique_def(prd, e.id)
+            if isinstance(d_, ast.Name) and d_.id == gparam:
+                return True, d_.lineno
+        return False, None
+    uses = [c for c in astq.own_calls(prd) if isinstance(c.func, ast.Attribute) and c.func.attr == 'set_geometry' and c.args and _alias_of_param(c.args[0])[0]]
     rebinds = []
     for n_ in ast.walk(prd.node):
         if isinstance(n_, (ast.For, ast.comprehension)):
@@ -190,7 +199,8 @@ def run(P, R, tier):
                 if it.optional_vars is not None and any(isinstance(x, ast.Name) and x.id == gparam for x in ast.walk(it.optional_vars)):
                     rebinds.append(n_)
     for u in uses:
-        early = [r_ for r_ in rebinds if getattr(r_, 'lineno', 10 ** 9) < u.lineno]
+        cap = _alias_of_param(u.args[0])[1] or u.lineno
+        early = [r_ for r_ in rebinds if getattr(r_, 'lineno', 10 ** 9) < cap]
         R.check(not early, 'C20.d', prd, u, 'the geometry applied to the meta frame is the caller\'s geometry= argument (not re-bound before)',
                 f'`{gparam}` is re-bound (`{norm(early[0])[:80] if early else ""}`) before `{norm(u)}`: the meta frame and the bounds filter use another column than the partitions')
     R.floor('C20.d', 'meta.set_geometry(geometry) sites', len(uses), 1)
@@ -199,6 +209,15 @@ def run(P, R, tier):
     okmeta = any(isinstance(c.func, ast.Attribute) and c.func.attr == 'set_geometry' and _is_meta(c.func.value) for c in astq.own_calls(prd))
     R.check(okmeta, 'C20.d', prd, None, 'the meta frame gets the requested geometry too', 'the meta frame does not get the requested geometry', construct='meta = meta.set_geometry(geometry)', nontrivial=False)
 
+    from rules import C12
+    sub = type(R)(R.prop, R.tier)
+    try:
+        C12.run(P, sub, 'quick')
+    except AnalysisError:
+        pass
+    for o in sub.obs:
+        if o.rule == 'C12.f':
+            R._add('C20.d', (o.path, o.site.split('::')[-1]), None, o.status, 'geometry= of read_parquet_dask decides which column\'s bounds are filtered and reported: ' + o.detail, construct=o.construct)
     # ---------------------------------------------------------------- C20.e
     fin = GDF.members.get('__finalize__')
     if fin is None:
@@ -229,6 +248,23 @@ def run(P, R, tier):
                 R.check(offending is None, 'C20.e', f, st, 'the agreed geometry is adopted regardless of what the constructor hook pre-set on the result',
                         f'adoption is skipped when `{norm(offending) if offending is not None else ""}`: _constructor_from_mgr pre-sets a column literally named "geometry", which then wins over '
                         f'the active geometry the inputs agree on')
+        # every GeoDataFrame input takes part in the agreement -- also inputs without rows (Dask meta frames, empty selections)
+        ncomp = 0
+        for comp in [n for n in walk_own(f.node) if isinstance(n, (ast.SetComp, ast.ListComp, ast.GeneratorExp)) and '_geometry' in norm(n.elt)]:
+            gen = comp.generators[0]
+            var = gen.target.id if isinstance(gen.target, ast.Name) else None
+            ncomp += 1
+            rowdep = []
+            for cond in gen.ifs:
+                for x in ast.walk(cond):
+                    if isinstance(x, ast.Call) and norm(x.func) == 'len' and x.args and var in astq.names_in(x.args[0]):
+                        rowdep.append(x)
+                    if isinstance(x, ast.Attribute) and x.attr in ('empty', 'shape', 'size', 'index') and isinstance(x.value, ast.Name) and x.value.id == var:
+                        rowdep.append(x)
+            R.check(not rowdep, 'C20.e', f, comp, 'every GeoDataFrame input takes part in the agreement, whatever its number of rows',
+                    f'inputs are filtered by `{norm(rowdep[0]) if rowdep else ""}`: inputs without rows are ignored, so a concat of empty frames (every Dask meta computation, empty selections) '
+                    'loses the active geometry and falls back to the first geometry column', construct='inputs taking part in the agreement')
+        R.floor('C20.e', 'geometry agreement comprehensions in __finalize__', ncomp, 1)
         R.check(agrees, 'C20.e', f, None, 'the active geometry is adopted only when all geo inputs agree on it', 'the active geometry is adopted without checking that the inputs agree',
                 construct='len(geometries) == 1', nontrivial=False)
     mn = P.func('spatialpandas.dask', 'meta_nonempty_dataframe')
